@@ -31,6 +31,8 @@ pub fn classify(res: std::thread::Result<anyhow::Result<()>>) -> String {
             let m = format!("{:#}", e);
             if m.contains("Content mismatch") {
                 "mismatch".into()
+            } else if m.contains("destination already exists") {
+                "destexists".into()
             } else if m.contains("Rollback encountered errors") {
                 "rollbackfailed".into()
             } else if m.contains("Failed to read current content") {
